@@ -214,3 +214,43 @@ func TestF13AppendTextContract(t *testing.T) {
 		}()
 	}
 }
+
+// F14: MarshalEncode/UnmarshalDecode may switch AllowDuplicateNames true->false at a member
+// VALUE position; the enclosing object has no namespace, and user code that then writes
+// (reads) a second token made the name path index an empty namespace stack: library panic.
+type f14Two struct{}
+
+func (f14Two) MarshalJSONTo(e *jsontext.Encoder) error {
+	e.WriteToken(jsontext.String("v"))
+	return e.WriteToken(jsontext.String("oops"))
+}
+
+type f14Read struct{}
+
+func (*f14Read) UnmarshalJSONFrom(d *jsontext.Decoder) error {
+	d.ReadToken()
+	_, err := d.ReadToken()
+	return err
+}
+
+func TestF14SwitchDuplicateNamesInsideObject(t *testing.T) {
+	defer func() {
+		if r := recover(); r != nil {
+			t.Fatalf("library panicked: %v", r)
+		}
+	}()
+	var bb bytes.Buffer
+	enc := jsontext.NewEncoder(&bb, jsontext.AllowDuplicateNames(true))
+	enc.WriteToken(jsontext.BeginObject)
+	enc.WriteToken(jsontext.String("k"))
+	if err := json.MarshalEncode(enc, f14Two{}, jsontext.AllowDuplicateNames(false)); err == nil {
+		t.Error("MarshalEncode returned nil for a method that wrote two values")
+	}
+	dec := jsontext.NewDecoder(bytes.NewReader([]byte(`{"k":"v","k2":1}`)), jsontext.AllowDuplicateNames(true))
+	dec.ReadToken()
+	dec.ReadToken()
+	var r f14Read
+	if err := json.UnmarshalDecode(dec, &r, jsontext.AllowDuplicateNames(false)); err == nil {
+		t.Error("UnmarshalDecode returned nil for a method that read two values")
+	}
+}
